@@ -188,7 +188,10 @@ theorem local_ok (tb : Tables) (h1 : tb.tupleIsList = false) (h2 : tb.dupExc.cau
         | func name d hf al =>
           show okExc (funcNameRaise tb name) = true
           unfold funcNameRaise
-          cases funcClass tb name <;> simp [h3, okExc, Exc.caught]
+          cases funcClass tb name with
+          | gen => simp only []; split <;> rfl
+          | missing => rfl
+          | pyattr => simp [h3, okExc, Exc.caught]
         | _ => ok_fin
       | table => cases tag <;> ok_fin
       | joinL => cases tag <;> ok_fin
